@@ -901,3 +901,82 @@ Fixpoint check_parse_all (xs : list str) (os : list pobs) : bool :=
   | x :: xs', o :: os' => check_parse x o && check_parse_all xs' os'
   | _, _ => false
   end.
+
+(** ** C07: [recipe_grid.compiler.compile(sources)] = parse every block, then compile.
+    [ast_recipes = [parse(source) for source in sources]] runs to completion
+    (or raises at the first failing block) before anything is compiled. *)
+Inductive soutcome :=
+| SrcOk (bs : list (list node))
+| SrcSyntax (blk : nat)                         (* peggie.ParseError in block [blk] *)
+| SrcErr (k : cerr) (blk : nat) (off : N)       (* RecipeCompileError subclass, position = offset in block *)
+| SrcParseCrash (blk : nat) (c : pcrash)
+| SrcCompileCrash (c : crash)
+| SrcOutOfFuel.
+
+Fixpoint parse_blocks (i : nat) (srcs : list str) : soutcome + list (list astmt) :=
+  match srcs with
+  | [] => inr []
+  | x :: rest' =>
+      match parse x with
+      | POk a =>
+          match parse_blocks (S i) rest' with
+          | inr l => inr (a :: l)
+          | inl e => inl e
+          end
+      | PSyntaxErr => inl (SrcSyntax i)
+      | PCrash c => inl (SrcParseCrash i c)
+      | POutOfFuel => inl SrcOutOfFuel
+      end
+  end.
+
+Definition compile_src_with (C : list (list astmt) -> outcome) (srcs : list str) : soutcome :=
+  match parse_blocks 0 srcs with
+  | inl e => e
+  | inr p =>
+      match C p with
+      | COk bs => SrcOk bs
+      | CErr k b o => SrcErr k b o
+      | CCrash c => SrcCompileCrash c
+      end
+  end.
+
+(** What the harness observed from [compile] / [compile_markdown]. *)
+Inductive exn_kind := EOverflow | EValue | EOtherExn.
+Inductive sobs :=
+| SObsOk (bs : list (list node))
+| SObsOkAny                                     (* returned normally; result too large to compare *)
+| SObsInf                                       (* some literal evaluated to float inf (outside the number model) *)
+| SObsSyntax
+| SObsErr (k : cerr) (cands : list (nat * N))
+| SObsExn (e : exn_kind).
+
+Definition pcrash_exn (c : pcrash) : exn_kind :=
+  match c with IntOfInf => EOverflow | IntStrLimit => EValue | _ => EOtherExn end.
+Definition crash_exn (c : crash) : exn_kind :=
+  match c with
+  | NumericOverflow => EOverflow        (* OverflowError in math.isclose / float(Fraction) *)
+  | RemoveAbsent => EValue              (* list.remove(x): x not in list *)
+  | _ => EOtherExn
+  end.
+Definition exn_eqb (a b : exn_kind) : bool :=
+  match a, b with EOverflow, EOverflow | EValue, EValue | EOtherExn, EOtherExn => true | _, _ => false end.
+
+Definition soutcome_matches (o : soutcome) (x : sobs) : bool :=
+  match o, x with
+  | SrcOk a, SObsOk b => blocks_same a b
+  | SrcOk _, SObsOkAny => true
+  | SrcSyntax _, SObsSyntax => true
+  | SrcErr k bl off, SObsErr k' cands =>
+      match k, k' with
+      | NameRedefined, NameRedefined | ProportionGiven, ProportionGiven => true
+      | _, _ => false
+      end && existsb (fun c => Nat.eqb bl (fst c) && N.eqb off (snd c)) cands
+  | SrcParseCrash _ InfFloat, SObsInf => true
+  | SrcParseCrash _ c, SObsExn e => negb (pcrash_eqb c InfFloat) && exn_eqb (pcrash_exn c) e
+  | SrcCompileCrash c, SObsExn e => exn_eqb (crash_exn c) e
+  | _, _ => false
+  end.
+
+From RG Require Model.CompilerInst.
+Definition compile_src : list str -> soutcome := compile_src_with CompilerInst.compile_ast_inst.
+Definition check_outcome (srcs : list str) (o : sobs) : bool := soutcome_matches (compile_src srcs) o.
